@@ -6,8 +6,12 @@ import LokiModel.C11.EqInt
 
 `pyEq a b` is Python's `a == b` on the model nodes (class `__eq__` methods chosen through the generated
 class tables, subclass-first reflected dispatch, `NotImplemented` fall-through), `hashEq a b` is
-`hash(a) == hash(b)`.  `docExc` is the documented `1:n == n` shortcut; `symExc` / `hashExc` add the
-known-finding classes (`KnownFloatEval`, `KnownBareVsLit`, `KnownCallHash`).
+`hash(a) == hash(b)`.  `docExc` is the documented `1:n == n` shortcut (also between the kinds of two literals);
+`hashExc` adds the one remaining open known-finding class `KnownBareVsLit`.
+
+Since the `fix:` commits recorded in `known_findings.json` (`InlineCall.__hash__` hashes the canonical string,
+`FloatLiteral.__eq__` no longer calls `float()` on expression nodes) symmetry holds at full strength and the
+hash law needs only `KnownBareVsLit`.
 -/
 namespace LokiModel.C11
 open Node
@@ -15,50 +19,45 @@ open Node
 /-- **symmetry, full statement**: outside the documented `1:n == n` shortcut `==` is symmetric -/
 def C11_sym_full : Prop := ∀ a b : Node, docExc a b = false → pyEq a b = pyEq b a
 
-/-- the unchanged code violates it: `FloatLiteral('1.0') == Sum((1, 0))` is True (`float(other)` evaluates
-the sum), `Sum((1, 0)) == FloatLiteral('1.0')` is False -/
-theorem C11_sym_full_false : ¬ C11_sym_full := by
-  intro h
-  have := h (floatLit "1.0".toList pyNone) (nary .sum [pyInt 1, pyInt 0]) (by decide)
-  revert this
-  decide
-
-/-- **symmetry** for all pairs of nodes outside the documented shortcut and the known class
-`floatliteral-evaluates-other` -/
-theorem C11_sym_partial (a b : Node) (h : symExc a b = false) : pyEq a b = pyEq b a := by
+/-- **symmetry (full strength)** for all pairs of nodes outside the documented shortcut -/
+theorem C11_sym (a b : Node) (h : docExc a b = false) : pyEq a b = pyEq b a := by
   unfold pyEq
-  unfold symExc at h
+  unfold docExc at h
   rw [Nat.add_comm (size b) (size a)]
-  exact sym_fuel KnownFloatEval (fun _ _ h => h) _ a b h
+  exact sym_fuel noKnown _ a b h
+
+theorem C11_sym_full_holds : C11_sym_full := C11_sym
 
 /-- non-vacuity: Range vs RangeIndex with the same bounds — both orders say False thanks to the
-subclass-first dispatch, and the pair is outside the exceptions -/
-example : symExc (range .range (intLit 1 pyNone) (sym .scalar "n".toList pyNone) pyNone)
+subclass-first dispatch, and the pair is outside the exception; a FloatLiteral against a sum of bare ints
+(asymmetric before the fix) is now False in both orders -/
+example : docExc (range .range (intLit 1 pyNone) (sym .scalar "n".toList pyNone) pyNone)
                  (range .rindex (intLit 1 pyNone) (sym .scalar "n".toList pyNone) pyNone) = false := by decide
 example : pyEq (range .range (intLit 1 pyNone) (sym .scalar "n".toList pyNone) pyNone)
                (range .rindex (intLit 1 pyNone) (sym .scalar "n".toList pyNone) pyNone) = false := by decide
-
+example : docExc (floatLit "1.0".toList pyNone) (nary .sum [pyInt 1, pyInt 0]) = false
+    ∧ pyEq (floatLit "1.0".toList pyNone) (nary .sum [pyInt 1, pyInt 0]) = false := by decide
 
 /-- **hash consistency, full statement**: outside the documented shortcut, equal nodes have equal hashes -/
 def C11_hash_full : Prop := ∀ a b : Node, docExc a b = false → pyEq a b = true → hashEq a b = true
 
-/-- the unchanged code violates it: `InlineCall(f, (IntLiteral(1),)) == InlineCall(f, (1,))` (same text `f(1)`)
-but the hashes of the init-arg tuples differ -/
+/-- the code still violates it (open class `bare-number-vs-literal-hash`): `IntLiteral(1) == 1` but
+`hash((1, None)) != hash(1)` -/
 theorem C11_hash_full_false : ¬ C11_hash_full := by
   intro h
-  have := h (call (sym .proc "f".toList pyNone) [intLit 1 pyNone] [] [])
-            (call (sym .proc "f".toList pyNone) [pyInt 1] [] []) (by decide) (by decide)
+  have := h (intLit 1 pyNone) (pyInt 1) (by decide) (by decide)
   revert this
   decide
 
-/-- **hash consistency** for all pairs of nodes outside the documented shortcut and the three known classes
-(`floatliteral-evaluates-other`, `bare-number-vs-literal-hash`, `inlinecall-hash-initargs`) -/
+/-- **hash consistency** for all pairs of nodes outside the documented shortcut and the known class
+`bare-number-vs-literal-hash` (a bare Python number against an IntLiteral/FloatLiteral) -/
 theorem C11_hash_partial (a b : Node) (h : hashExc a b = false) (he : pyEq a b = true) : hashEq a b = true := by
   unfold hashEq
   simp only [beq_iff_eq]
   exact hash_fuel _ a b he h
 
-/-- non-vacuity: same text from different classes (Scalar `n` vs DeferredTypeSymbol `N`), equal kinds in different case -/
+/-- non-vacuity: same text from different classes, equal kinds in different case, nested vs flat sums, and the
+InlineCall pairs that hashed differently before the fix -/
 example : hashExc (sym .scalar "n".toList pyNone) (sym .dts "N".toList pyNone) = false
     ∧ pyEq (sym .scalar "n".toList pyNone) (sym .dts "N".toList pyNone) = false := by decide
 example : hashExc (intLit 1 (sym .scalar "jprb".toList pyNone)) (intLit 1 (sym .scalar "JPRB".toList pyNone)) = false
@@ -67,7 +66,12 @@ example : hashExc (nary .sum [sym .scalar "a".toList pyNone, nary .sum [sym .sca
                   (nary .sum [sym .scalar "A".toList pyNone, sym .scalar "b".toList pyNone, sym .scalar "c".toList pyNone]) = false
     ∧ pyEq (nary .sum [sym .scalar "a".toList pyNone, nary .sum [sym .scalar "b".toList pyNone, sym .scalar "c".toList pyNone]])
            (nary .sum [sym .scalar "A".toList pyNone, sym .scalar "b".toList pyNone, sym .scalar "c".toList pyNone]) = true := by decide
-
+example : hashExc (call (sym .proc "f".toList pyNone) [intLit 1 pyNone] ["x".toList] [pyInt 2])
+                  (call (sym .proc "F".toList pyNone) [pyInt 1] ["X".toList] [intLit 2 (intLit 8 pyNone)]) = false
+    ∧ pyEq (call (sym .proc "f".toList pyNone) [intLit 1 pyNone] ["x".toList] [pyInt 2])
+           (call (sym .proc "F".toList pyNone) [pyInt 1] ["X".toList] [intLit 2 (intLit 8 pyNone)]) = true
+    ∧ hashEq (call (sym .proc "f".toList pyNone) [intLit 1 pyNone] ["x".toList] [pyInt 2])
+             (call (sym .proc "F".toList pyNone) [pyInt 1] ["X".toList] [intLit 2 (intLit 8 pyNone)]) = true := by decide
 
 /-- **case-insensitivity (full strength)**: for every node and every re-casing `f` of names (any function on
 names that does not change their lower-cased, blank-free form — applied to every symbol name, derived-type
@@ -82,8 +86,8 @@ theorem C11_case_insensitive (f : Str → Str) (hf : ∀ s, lowerNS (f s) = lowe
 theorem C11_canon_case_insensitive (f : Str → Str) (hf : ∀ s, lowerNS (f s) = lowerNS s) (a : Node) :
     canon (recase f a) = canon a := canon_recase f hf a
 
-/-- re-cased copies also hash alike, outside `inlinecall-hash-initargs` (keyword names are hashed case-sensitively)
-and the other hash classes -/
+/-- re-cased copies also hash alike (outside `hashExc`; for a node and its re-cased copy that can only be the
+documented shortcut between the kinds of a literal) -/
 theorem C11_case_hash_partial (f : Str → Str) (hf : ∀ s, lowerNS (f s) = lowerNS s) (a : Node)
     (h : hashExc a (recase f a) = false) : hashEq a (recase f a) = true :=
   C11_hash_partial a (recase f a) h (C11_case_insensitive f hf a).1
